@@ -333,7 +333,7 @@ def static_scan(src):
             after = m[mo.end():mo.end() + 40]
             before = m[max(0, mo.start() - 40):mo.start()]
             ok = (re.match(r'\.(%s)\(' % '|'.join(READER_METHODS), after) or
-                  (re.match(r', disable_extensions\)', after) and re.search(r'(JSON::parse|skip_whitespace_and_comments)\($', before)) or
+                  (re.match(r'(, [^();]*)?\)', after) and re.search(r'(JSON::parse|skip_whitespace_and_comments)\($', before)) or
                   (re.match(r'\(s, size\);', after) and re.search(r'StringReader $', before)))
             if not ok:
                 raise ExtractionBreak('%s: the reader is used other than through its bounds-checked member functions: ...%s' % (JS, (before + 'r' + after).replace('\n', ' ')))
@@ -373,7 +373,15 @@ def json_unit(ctx, src, loops):
                       Rule(r'\}\s*\Z', ' C05_SKIP_EXIT; }', count=1, regex=True)] + COMMON_TAIL,
                nloops=1, loops={1: loops['skip']}, body_prefix=' C05_SKIP_ENTRY; ')
     u = new_unit('dict')
-    CHILD = '(JSON_parse(r, disable_extensions, &%s), %s); if (verif_exc) return;'      # (call, ghost step) ; propagation
+    # default argument of the reader entry point, read from the declaration
+    dflt = Unit(ctx, 'c05_tmp').snippet(src, 'src/JSON.hh', r'static JSON parse\(StringReader& r, bool disable_extensions = (\w+)\);', group=1)
+    MODE_OK = '__CPROVER_assert((%s) == disable_extensions, "a nested value is parsed in the mode of its container (strict mode stays strict)");'
+
+    def child(var, step, mode='disable_extensions'):
+        # (mode obligation) (call, ghost step) ; propagation
+        return (MODE_OK % mode) + ' (JSON_parse(r, %s, &%s), %s); if (verif_exc) return;' % (mode, var, step)
+    CHILD = '%s'  # kept for the two format sites below
+
     # (a) dictionary
     key_check = '{ verif_exc = EXC_type_error; return; }'
     u.block(src, JS, PARSE_SIG, BLOCKS['dict'][0], ret_zero='',
@@ -384,16 +392,21 @@ def json_unit(ctx, src, loops):
                    Rule(r'(?<!char )separator = r\.get_s8\(\);', 'C05_DICT_PEEK_C; separator = r.get_s8();', count=1, regex=True),
                    Rule(r'(\bif \([^;]*?r\.get_s8\(false\) == \'\}\'[^;]*?\) \{)', r'C05_DICT_PEEK_A; \1', count=1, regex=True),
                    Rule(r'JSON key = JSON::parse\(r, disable_extensions\);',
-                        'JVal key; ' + CHILD % ('key', 'C05_DICT_KEY_DONE'), count=1, regex=True),
+                        'JVal key; ' + child('key', 'C05_DICT_KEY_DONE'), count=None, regex=True),
+                   # the same statement with the mode argument omitted or different: made explicit and checked (MODE_OK)
+                   Rule(r'JSON key = JSON::parse\(r(?:, ([^();]*))?\);', lambda mo: 'JVal key; ' + child('key', 'C05_DICT_KEY_DONE', mo.group(1) or dflt), count=None, regex=True),
+                   # value parsed into a named temporary first, then moved into the dictionary
+                   Rule(r'JSON (\w+) = JSON::parse\(r(?:, ([^();]*))?\);', lambda mo: 'JVal %s; C05_DICT_PEEK_V; ' % mo.group(1) + child(mo.group(1), 'C05_DICT_VAL_DONE_IN(%s)' % mo.group(1), mo.group(2) or dflt), count=None, regex=True),
+                   Rule(r'ret\.emplace\((?:std::)?move\(key\.as_string\(\)\), (?:std::)?move\((\w+)\)\);', '{ if (!jv_is_string(&key)) ' + key_check + ' jv_dict_emplace(ret); }', count=None, regex=True),
                    Rule(r"(\bif \(r\.get_s8\(\) [!=]= '.'\) \{)", r'C05_DICT_PEEK_D; \1', count=1, regex=True),
                    # key.as_string() throws type_error when the key is not a string (JSON::as_string, checked below); the two
                    # arguments of emplace are indeterminately sequenced: both orders are modelled (nondet choice)
                    Rule(r'ret\.emplace\((?:std::)?move\(key\.as_string\(\)\), JSON::parse\(r, disable_extensions\)\);',
                         '{ bool verif_key_first = nondet_bool(); JVal verif_v; C05_DICT_PEEK_V;'
                         ' if (verif_key_first && !jv_is_string(&key)) ' + key_check +
-                        ' ' + CHILD % ('verif_v', 'C05_DICT_VAL_DONE') +
+                        ' ' + child('verif_v', 'C05_DICT_VAL_DONE') +
                         ' if (!verif_key_first && !jv_is_string(&key)) ' + key_check +
-                        ' jv_dict_emplace(ret); }', count=1, regex=True),
+                        ' jv_dict_emplace(ret); }', count=None, regex=True),
                    # (the proposed fix checks key.is_string() right after the key has been parsed)
                    Rule(r'\bkey\.is_string\(\)', 'jv_is_string(&key)', regex=True),
                    SKIP_RULE] + COMMON_TAIL,
@@ -410,7 +423,8 @@ def json_unit(ctx, src, loops):
                    Rule(r'(?<!char )separator = r\.get_s8\(\);', 'C05_LIST_PEEK_C; separator = r.get_s8();', count=1, regex=True),
                    Rule(r'(\bif \([^;]*?r\.get_s8\(false\) == \'\]\'[^;]*?\) \{)', r'C05_LIST_PEEK_A; \1', count=1, regex=True),
                    Rule(r'ret\.emplace_back\(JSON::parse\(r, disable_extensions\)\);',
-                        '{ JVal verif_v; C05_LIST_PEEK_V; ' + CHILD % ('verif_v', 'C05_LIST_CHILD_DONE') + ' jv_list_append(ret); }', count=1, regex=True),
+                        '{ JVal verif_v; C05_LIST_PEEK_V; ' + child('verif_v', 'C05_LIST_CHILD_DONE') + ' jv_list_append(ret); }', count=None, regex=True),
+                   Rule(r'ret\.emplace_back\(JSON::parse\(r(?:, ([^();]*))?\)\);', lambda mo: '{ JVal verif_v; C05_LIST_PEEK_V; ' + child('verif_v', 'C05_LIST_CHILD_DONE', mo.group(1) or dflt) + ' jv_list_append(ret); }', count=None, regex=True),
                    SKIP_RULE] + COMMON_TAIL,
             nloops=1, loops={1: loops['list']})
     # (c) number
